@@ -332,7 +332,14 @@ def shadow_names(prog, m):
     return sorted({it["name"] for fn in funcs_in(prog, m) for it in prog["funcs"][fn]["body"] if it["t"] == "shadow"})
 
 
-def shadow_text(name):
+BUILTIN_NAMES = ["filter", "format", "max", "hash", "round", "sorted"]
+
+
+def shadow_text(name, prog=None):
+    if name in BUILTIN_NAMES:
+        # a user function of the module named like a builtin (it shadows the builtin in this module)
+        ver = (prog or {}).get("ext", {}).get("bf_ver", 1)
+        return [f"def {name}():", f"    return ('helper', {name!r}, {ver!r})"]
     return [f"def {name}():", f"    return ('helper', {name!r})"]
 
 
@@ -359,7 +366,7 @@ def render(prog):
                     lines.append(f"PATH_{fn}_{i} = {_path_value(it['path'], it['pathform'])}")
         for sn in shadow_names(prog, m):
             lines.append("")
-            lines.extend(shadow_text(sn))
+            lines.extend(shadow_text(sn, prog))
         extra = prog.get("extra", {}).get(m, [])
         pre = [e for e in extra if e.get("pos", "top") == "top"]
         for e in pre:
@@ -459,6 +466,13 @@ def accepted_names(prog):
     else:
         names += nested
     return names
+
+
+def own_accepted_names(prog):
+    """The accepted names that cover the program's own code (its accepted prefix and the names nested below it), in
+    the order of accepted_names(): what a late `accept_module` adds."""
+    main = ".".join(prog["pkg"][: prog.get("accept", 1)])
+    return [n for n in accepted_names(prog) if n == main or n.startswith(main + ".")]
 
 
 def clone(prog):
